@@ -7,6 +7,7 @@ CONSTANTS
   Weak_MismatchAlsoCountsAsMatch = FALSE
   Weak_NoWitnessNeeded = FALSE
   Weak_BackwardsUnbound = FALSE
+  Weak_ReplacementHashUnchecked = FALSE
 INIT Init
 NEXT Next
 CHECK_DEADLOCK FALSE
